@@ -424,8 +424,11 @@ func FuzzDecodeMessage(f *testing.F) {
 	})
 }
 
-func TestC12Replay(t *testing.T) {
-	doc := loadReplay(t)
+func TestC12Replay(t *testing.T) { c12ReplayDoc(t, loadReplay(t)) }
+
+func TestC12Regress(t *testing.T) { regress(t, "C12", c12ReplayDoc) }
+
+func c12ReplayDoc(t *testing.T, doc map[string]any) {
 	c, _ := doc["case"].(map[string]any)
 	b := unhex(t, c["bytes"])
 	m, viol := c12Decode(b, true)
